@@ -14,7 +14,8 @@ REQUIRED_MONITORS = [f"sound+complete@{a}.run" for a in ALGS] + [f"one-NaN-patte
 CRIT = ["conj", "xi", "mpc", "mpd", "cov"]
 ALL_STATES = [f"fails {c} alone" for c in CRIT] + ["fails several", "passes all", "conj=False keeps orphan", "ordmin > 0"]
 REQUIRED_STATES = ["same instance re-run with relaxed criteria", "ordmin > 0", "fails xi alone", "fails mpc alone", "fails mpd alone", "fails cov alone", "fails conj alone", "passes all", "conj=False keeps orphan",
-                   "relaxed mpd_lim in [0.5, 1.2] with mpc_lim = 0", "mpd_lim = 0", "mpc_lim = 1", "result tables re-examined after plotting with freqlim", "same instance run twice with the same criteria"]
+                   "relaxed mpd_lim in [0.5, 1.2] with mpc_lim = 0", "mpd_lim = 0", "mpc_lim = 1", "result tables re-examined after plotting with freqlim", "same instance run twice with the same criteria",
+                   "limits a relative 1e-6 beside the indicators of existing poles"]
 RULE = ("noisy responses of systems with complex non-proportional shapes, high model orders (many spurious, negatively damped and real poles); a first "
         "run observes the indicator distributions of the unfiltered solution (captured at the return of SSI_poles / pLSCF_poles in the same "
         "execution), later runs put xi_max / mpc_lim / mpd_lim / cov_max at their 30..70 % quantiles; every cell of every run is judged for "
@@ -199,6 +200,8 @@ def build(alg, fs, data, ref, datasets, hc, rng, extra=None):
     from pyoma2.setup import MultiSetup_PreGER, SingleSetup
 
     cls = getattr(A_, alg)
+    if rng.random() < 0.5:
+        hc = {k: hc[k] for k in [str(x) for x in rng.permutation(list(hc))]}  # the criteria are named: any key order means the same
     if alg.startswith("pLSCF"):
         h = {k: v for k, v in hc.items() if k != "cov_max"}
         kw = dict(ordmax=int(extra.get("ordmax", 9)), nxseg=256, hc=h, method_SD=extra.get("method_SD", "per"), ordmin=int(extra.get("ordmin", 0)))
@@ -298,6 +301,15 @@ def run_adaptive(ctx, case, rng, calc_unc=False):
                mpd_lim=q(cl["_ind"]["mpd"][fin], qs[2]), cov_max=0.2)
     if calc_unc and unf.get("Fn_cov") is not None:
         hc2["cov_max"] = q(unf["Fn_cov"][fin], qs[3])
+    if rng.random() < 0.3:
+        # a limit placed a relative 1e-6 beside the indicator of an existing pole (on the rejecting side): 1e-6 is far outside the 1e-9
+        # band in which the statement leaves the decision open, so that pole must go
+        mp, mc = cl["_ind"]["mpd"][fin], cl["_ind"]["mpc"][fin]
+        mp, mc = mp[np.isfinite(mp) & (mp > 0)], mc[np.isfinite(mc) & (mc > 0) & (mc < 1)]
+        if len(mp) and len(mc):
+            hc2["mpd_lim"] = float(np.sort(mp)[int(rng.integers(0, max(1, len(mp) // 2)))] * (1 - 1e-6))
+            hc2["mpc_lim"] = float(np.sort(mc)[int(rng.integers(len(mc) // 2, len(mc)))] * (1 + 1e-6))
+            ctx.state("limits a relative 1e-6 beside the indicators of existing poles")
     if alg.startswith("pLSCF"):
         hc2.pop("cov_max")
     s2, a2 = build(alg, fs, data, ref, datasets, hc2, rng, extra)
